@@ -26,13 +26,13 @@ class _Pipeline:
         return self + other
 
     def __rsub__(self, other) -> Self:
-        return self - other
+        return self.__class__(lambda *args: other - self(*args))
 
     def __rmul__(self, other) -> Self:
         return self * other
 
     def __rtruediv__(self, other) -> Self:
-        return self / other
+        return self.__class__(lambda *args: other / self(*args))
 
 
 class ImageProvider(_Pipeline, Generic[_R]):
